@@ -3,5 +3,5 @@ package main
 import "github.com/benhoyt/goawk/verifharness/c09"
 
 func init() {
-	props["C09"] = &Prop{Replay: c09.Replay, Modes: map[string]func([]string) int{"gate": c09.Gate, "cgate-source": c09.WriteCGate}}
+	props["C09"] = &Prop{Replay: c09.Replay, Record: c09.Record, Modes: map[string]func([]string) int{"gate": c09.Gate, "cgate-source": c09.WriteCGate}}
 }
